@@ -225,7 +225,7 @@ class Model:
 
 
 class ReaderHist:
-    """steps: ["open", cfg] ["read", o, n] ["dask", o, n, chunk] ["offsets", k] ["bad", kind, v] ["adjacent", o, a, b] ["threads", reqs, order]"""
+    """steps: ["open", cfg] ["read", o, n] ["dask", o, n, chunk] ["offsets", k] ["bad", kind, v] ["adjacent", o, a, b] ["threads", reqs, order] ["copy_edit", how, o, n]"""
 
     def __init__(self, stt):
         self.st = stt
@@ -272,6 +272,39 @@ class ReaderHist:
         zc = z.compute(scheduler="synchronous")
         self.m.check_read(zc, o, n, "dask_read(%d, %d, %s)" % (o, n, chunk))
         self.st.label("dask_read")
+
+    def s_copy_edit(self, how, o, n):
+        """a copy of the reader (copy.copy / deepcopy / pickle) reads the same file the same way; what is then assigned on the COPY is the copy's
+        business: the original goes on reading what the file encodes"""
+        import copy
+        import pickle
+
+        o, n = self.bounds(o, n)
+        r = self.m.r
+        with lib("%s of the reader" % how):
+            c = {"copy": copy.copy, "deepcopy": copy.deepcopy, "pickle": lambda x: pickle.loads(pickle.dumps(x))}[how](r)
+            zc = c.read(o, n)
+        self.m.check_read(zc, o, n, "read(%d, %d) from a %s of the reader" % (o, n, how))
+        edits = {"center_freq": 1.2345 * u.GHz, "chan_bw": 3 * u.Hz, "freq_align": "top", "pol_type": "circular", "sample_rate": 7 * u.Hz, "meta": {"x": 1}}
+        done = []
+        for k, v in edits.items():
+            if hasattr(c, k):
+                cur = getattr(c, k)
+                if k == "pol_type":
+                    v = "linear" if cur == "circular" else "circular"
+                elif k == "freq_align":
+                    v = "bottom" if cur == "top" else "top"
+                try:
+                    setattr(c, k, v)
+                    done.append(k)
+                except (AttributeError, TypeError, ValueError):
+                    pass
+        with lib("read from the original after editing its copy"):
+            z = r.read(o, n)
+        self.m.check_read(z, o, n, "read(%d, %d) after assigning %s on a %s of the reader" % (o, n, done, how))
+        self.st.label("copy_edit_" + how)
+        if done:
+            self.st.nt()
 
     def s_offsets(self, k):
         r, L = self.m.r, self.m.length
@@ -524,6 +557,11 @@ class ReaderMachine(HistoryMachine):
     def dask(self, data, chunk):
         o, n = self._pos(data)
         self.do(["dask", o, n, chunk])
+
+    @rule(data=st.data(), how=st.sampled_from(["copy", "copy", "deepcopy", "pickle"]))
+    def copy_edit(self, data, how):
+        o, n = self._pos(data)
+        self.do(["copy_edit", how, o, min(n, 64)])
 
     @rule(k=st.integers(0, 10**6))
     def offsets(self, k):
